@@ -316,6 +316,41 @@ def main(tier, seed):
     lv.standard_proof_phase(run, PROP, TARGETS, thorough=(tier == "thorough"))
     a = lvcheck.generic_suite(run, FILTERS, tier, seed)
     b = lvcheck.generic_suite(run, TAGS, tier, seed)
+    # every argument position of every tag filled with every kind of expression (C01's grid): whatever parses is rendered, on both builds; never a panic, always valid UTF-8
+    from props import c01
+    texts = []
+    for schema in c01.ARG_SCHEMAS:
+        k = schema.count("S")
+        fills = [(x,) * k for x in c01.ARG_POOL] + ([(x, y) for x in c01.ARG_CORE for y in c01.ARG_POOL] + [(y, x) for x in c01.ARG_CORE for y in c01.ARG_POOL] if k == 2 else [])
+        for f in fills:
+            parts = schema.split("S")
+            texts.append("".join(x + (f[i] if i < len(f) else "") for i, x in enumerate(parts)))
+    texts = sorted(set(texts))
+    gdata = [["x", ["o", [["y", ["i", "2"]], ["k", ["s", "v"]]]]], ["y", ["i", "2"]], ["a", ["a", [["s", "é1"], ["i", "2"], ["n"], ["o", [["k", ["s", "v"]]]]]]], ["forloop", ["s", "shadow"]]]
+    grid_n, grid_rendered = 0, 0
+    for profile in ("debug", "release"):
+        ok, binp, out, dt = lv.build_harness(profile)
+        if not ok:
+            run.obligation(False, "harness build against /repo (%s)" % profile, out[-2000:])
+            continue
+        reqs = [{"id": i, "kind": "render", "tpl": t, "data": gdata, "partials": [["p", "<{{ k }}{{ v }}>"], ["v", "V"]]} for i, t in enumerate(texts)]
+        resps, problems = lv.run_harness(binp, reqs, tag="C02grid" + profile)
+        for pb in problems:
+            run.violations.append({"what": "implementation process died while rendering", "input": {"template": texts[pb["first_unanswered"]] if pb.get("first_unanswered") is not None and pb["first_unanswered"] < len(texts) else None}, "observed": pb["tail"], "profile": profile})
+        for i, t in enumerate(texts):
+            r = resps.get(i)
+            if r is None:
+                continue
+            grid_n += 1
+            if "panic" in r:
+                run.violations.append({"what": "parsing or rendering panicked", "input": {"template": t, "data": gdata}, "observed": r["panic"], "profile": profile})
+            elif "ok" in r or "err" in r:
+                grid_rendered += 1
+                if tpl.observed(r)[1] is None:
+                    run.violations.append({"what": "the bytes written are not valid UTF-8", "input": {"template": t, "data": gdata}, "observed": r, "profile": profile})
+    a["evaluations"] += grid_n
+    a["nontrivial"] += grid_rendered
+    a["dist"]["tag_argument_grid_templates"] = len(texts)
     run.coverage.update({"evaluations": a["evaluations"] + b["evaluations"], "distinct_nontrivial": a["nontrivial"] + b["nontrivial"], "rule": RULE,
                          "samples": a["samples"][:2] + b["samples"][:2], "traces_validated_against_impl": a["evaluations"] + b["evaluations"],
                          "disagreements_checked": a["disagreements"] + b["disagreements"], "exhaustive": True,
